@@ -53,7 +53,7 @@ Definition families : list family := [fam_direct; fam_arith; fam_mutual; fam_hid
 Definition COST_FUEL : nat := N.to_nat 20000.
 (* Context.CallCount after parsley.Parse(Sentence(root)); None if the run does not finish or fails *)
 Definition calls_of (f : family) (n : nat) : option N :=
-  let inp := {| i_data := fm_input f n; i_offset := 1 |} in
+  let inp := mk_input (fm_input f n) 1 in
   match parse_top inp (fm_rules f) COST_FUEL (sentence (fm_root f)) with
   | Ok (TopNode _ c) => Some (calls c)
   | _ => None
